@@ -256,22 +256,37 @@ def numeric_own_encoding(blob):
     if ref_err is not None:
         raise sut.HarnessError('reference bytes not parsed: %r' % (ref_err,))
 
+    texts = [i for i, r in enumerate(parsed)
+             if spec.kind_of(r['section']) in ('preamble', 'meta')]
+
+    if not texts:
+        return None
+
+    chosen = texts[len(blob) % len(texts)]
+
     for idx, rec in enumerate(parsed):
-        if spec.kind_of(rec['section']) not in ('preamble', 'meta') or \
-                'encoding' not in rec['options']:
+        if idx != chosen:
             continue
 
         hstart, cstart, _cend = rec['span']
         header = blob[hstart:cstart]
-        own = b'encoding=' + str(rec['options']['encoding']).encode('ascii')
-
-        if header.count(own) != 1:
-            continue
 
         for name in NUMERIC_NAMES:
-            mutated = (blob[:hstart] +
-                       header.replace(own, b'encoding=' + name) +
-                       blob[cstart:])
+            if 'encoding' in rec['options']:
+                own = b'encoding=' + str(
+                    rec['options']['encoding']).encode('ascii')
+
+                if header.count(own) != 1:
+                    break
+
+                new_header = header.replace(own, b'encoding=' + name)
+            else:
+                # the section gets an own declaration
+                colon = header.index(b': ') + 2
+                new_header = (header[:colon] + b'encoding=' + name + b', ' +
+                              header[colon:])
+
+            mutated = blob[:hstart] + new_header + blob[cstart:]
             recs, err = sut.read_records(mutated)
 
             if err is None or len(recs) > idx:
